@@ -1531,6 +1531,13 @@ static int cfg_parse_internal(cfg_t *cfg, int level, int force_state, cfg_opt_t 
 					goto error;
 				if (opt && opt->validcb && (*opt->validcb) (cfg, opt) != 0)
 					goto error;
+
+				/* Inherit last read comment */
+				cfg_opt_setcomment(opt, comment);
+				if (comment)
+					free(comment);
+				comment = NULL;
+
 				++num_values;
 				state = 0;
 			} else {
